@@ -27,7 +27,8 @@ Record func : Type := mkfunc {
   original_insns : list insn;      (* func->original_insns *)
   vars : list Z;                   (* func->vars: names, arguments first *)
   original_vars_num : nat;
-  regtab : list Z;                 (* names registered in func->internal (name2rdn/reg2rdn tables) *)
+  gvars : list Z;                  (* func->global_vars: names of the hard-register-tied variables *)
+  regtab : list (Z * nat);         (* func->internal: the live entries of name2rdn/reg2rdn, (name, register number) *)
   lrefs : list lref;               (* first_lref chain *)
   next_id : nat;                   (* every identity handed out so far is < next_id *)
   machine_code : option Z;
@@ -63,7 +64,7 @@ Definition dup_lref (m : list (nat * nat)) (l : lref) : lref :=
 
 Definition dup (f : func) : func :=
   let m := label_map (insns f) (next_id f) in
-  mkfunc (copy_insns m (insns f) (next_id f)) (insns f) (vars f) (length (vars f)) (regtab f)
+  mkfunc (copy_insns m (insns f) (next_id f)) (insns f) (vars f) (length (vars f)) (gvars f) (regtab f)
          (map (dup_lref m) (lrefs f)) (next_id f + length (insns f)) (machine_code f) (call_addr f)
          (faddr f).
 
@@ -102,8 +103,12 @@ Fixpoint update_at {A} (l : list A) (pos : nat) (g : A -> A) : list A :=
   end.
 
 Definition with_insns (f : func) (l : list insn) (nid : nat) : func :=
-  mkfunc l (original_insns f) (vars f) (original_vars_num f) (regtab f) (lrefs f) nid
+  mkfunc l (original_insns f) (vars f) (original_vars_num f) (gvars f) (regtab f) (lrefs f) nid
          (machine_code f) (call_addr f) (faddr f).
+
+Definition reg_names (f : func) : list Z := map fst (regtab f).
+(* new_func_reg: reg = VARR_LENGTH (vars) + 1 + VARR_LENGTH (global_vars)   (0 is reserved) *)
+Definition new_reg_num (f : func) : nat := length (vars f) + 1 + length (gvars f).
 
 Definition apply_edit (f : func) (e : edit) : func :=
   match e with
@@ -118,11 +123,12 @@ Definition apply_edit (f : func) (e : edit) : func :=
     | None => f
     end
   | EAddVar name =>
-    if existsb (Z.eqb name) (regtab f) then f       (* "Repeated reg declaration": refused *)
-    else mkfunc (insns f) (original_insns f) (vars f ++ [name]) (original_vars_num f)
-                (regtab f ++ [name]) (lrefs f) (next_id f) (machine_code f) (call_addr f) (faddr f)
+    if existsb (Z.eqb name) (reg_names f) then f    (* "Repeated reg declaration": refused *)
+    else mkfunc (insns f) (original_insns f) (vars f ++ [name]) (original_vars_num f) (gvars f)
+                (regtab f ++ [(name, new_reg_num f)]) (lrefs f) (next_id f) (machine_code f) (call_addr f)
+                (faddr f)
   | ERetarget k lab lab2 =>
-    mkfunc (insns f) (original_insns f) (vars f) (original_vars_num f) (regtab f)
+    mkfunc (insns f) (original_insns f) (vars f) (original_vars_num f) (gvars f) (regtab f)
            (update_at (lrefs f) k (fun l => mklref lab lab2 (l_orig l) (l_orig2 l)))
            (next_id f) (machine_code f) (call_addr f) (faddr f)
   end.
@@ -131,14 +137,15 @@ Definition mutate (s : list edit) (f : func) : func := fold_left apply_edit s f.
 
 (* ------------------------------------------------------------------ restore *)
 
-Fixpoint remove_name (l : list Z) (x : Z) : list Z :=
+(* rd = find_rd_by_name (var.name); HTAB_DELETE of that descriptor from name2rdn_tab and reg2rdn_tab *)
+Fixpoint remove_name (l : list (Z * nat)) (x : Z) : list (Z * nat) :=
   match l with
   | [] => []
-  | y :: r => if Z.eqb y x then r else y :: remove_name r x
+  | y :: r => if Z.eqb (fst y) x then r else y :: remove_name r x
   end.
 
 (* while (VARR_LENGTH (vars) > original_vars_num) { var = VARR_POP; delete var.name from tables } *)
-Fixpoint pop_vars (fuel : nat) (vs : list Z) (tab : list Z) (keep : nat) : list Z * list Z :=
+Fixpoint pop_vars (fuel : nat) (vs : list Z) (tab : list (Z * nat)) (keep : nat) : list Z * list (Z * nat) :=
   match fuel with
   | O => (vs, tab)
   | S k =>
@@ -154,7 +161,7 @@ Definition restore_lref (l : lref) : lref :=
 
 Definition restore (f : func) : func :=
   let vt := pop_vars (length (vars f)) (vars f) (regtab f) (original_vars_num f) in
-  mkfunc (original_insns f) [] (fst vt) (original_vars_num f) (snd vt)
+  mkfunc (original_insns f) [] (fst vt) (original_vars_num f) (gvars f) (snd vt)
          (map restore_lref (lrefs f)) (next_id f) (machine_code f) (call_addr f) (faddr f).
 
 (* ------------------------------------------------------------------ generate_func_code *)
@@ -163,12 +170,13 @@ Definition restore (f : func) : func :=
 Record fview : Type := mkview {
   v_insns : list insn;
   v_vars : list Z;
-  v_regtab : list Z;
+  v_gvars : list Z;
+  v_regtab : list (Z * nat);       (* every declared register keeps its name AND its number *)
   v_lrefs : list (nat * option nat)
 }.
 
 Definition view (f : func) : fview :=
-  mkview (insns f) (vars f) (regtab f) (map (fun l => (l_label l, l_label2 l)) (lrefs f)).
+  mkview (insns f) (vars f) (gvars f) (regtab f) (map (fun l => (l_label l, l_label2 l)) (lrefs f)).
 
 (* MIR_gen: s = what this run of the generator does to the working copy, code = where the
    machine code gets published.  Returns the new state and the address handed to the caller. *)
@@ -177,7 +185,7 @@ Definition gen (s : list edit) (code : Z) (f : func) : func * Z :=
   | Some _ => (f, faddr f)                  (* already generated: thunk re-pointed, nothing else *)
   | None =>
     let f1 := restore (mutate s (dup f)) in
-    (mkfunc (insns f1) (original_insns f1) (vars f1) (original_vars_num f1) (regtab f1) (lrefs f1)
+    (mkfunc (insns f1) (original_insns f1) (vars f1) (original_vars_num f1) (gvars f1) (regtab f1) (lrefs f1)
             (next_id f1) (Some code) (Some code) (faddr f1), faddr f)
   end.
 
@@ -202,8 +210,10 @@ Definition wf (f : func) : Prop :=
         In (l_label l) (label_ids (insns f))
         /\ (forall x, l_label2 l = Some x -> In x (label_ids (insns f)))
         /\ l_orig l = None /\ l_orig2 l = None)
-  /\ NoDup (regtab f)
-  /\ (forall v, In v (vars f) -> In v (regtab f)).
+  /\ NoDup (reg_names f)
+  /\ (forall v, In v (vars f) -> In v (reg_names f))
+  /\ NoDup (map snd (regtab f))
+  /\ (forall p, In p (regtab f) -> snd p <= length (vars f) + length (gvars f)).
 
 (* boolean version for the extracted driver / examples *)
 Definition refs_closed (l : list insn) : bool :=
